@@ -1600,6 +1600,74 @@ def run(ctx, only=None):
 
     seeds_block()
 
+    # ---- argument validation: the ValueError branches of the generators ---------------------------------------------
+    @case
+    def args_block():
+        def outcome(f):
+            try:
+                f()
+                return "ok"
+            except ValueError:
+                return "ERR:ValueError"
+            except Exception as e:         # any other exception kind is compared as such (and differs from the model)
+                return "ERR:" + type(e).__name__
+
+        def judge(tag, line, got, want, what, replay):
+            ctx.count("args:%s:%s" % (tag, got))
+            if got != want:
+                ctx.spec_fail("argument_validation", "%s -> %s, the documented domain says %s" % (what, got, want), replay)
+            cases.append(Case(line, got, nontrivial=True, tag="args-" + tag))
+
+        # sample_without_replacement: every (n, k) of a small box, valid and malformed
+        for n in range(-2, 7):
+            for k in range(-1, 8):
+                got = outcome(lambda: sample_without_replacement(n, k, random_state=1))
+                want = "ok" if (n > 0 and 0 <= k <= n) else "ERR:ValueError"
+                judge("swr", "C18 args fn=swr n=%d k=%d" % (n, k), got, want, "sample_without_replacement(%d, %d)" % (n, k),
+                      {"fn": "sample_without_replacement", "n": n, "k": k})
+        # covariance_game: N = 0..4 players, rho on / next to the ends of [-1/(N-1), 1] and well inside / outside
+        for N in range(0, 5):
+            nums = (2,) * N
+            lo = -1 / (N - 1) if N >= 2 else -1.0
+            rhos = [lo, float(np.nextafter(lo, -2.0)), float(np.nextafter(lo, 2.0)), 1.0, float(np.nextafter(1.0, 2.0)),
+                    float(np.nextafter(1.0, 0.0)), 0.0, -0.0, 0.5, -0.75, -1.0, 1.5, -2.0, rng.uniform(-1.5, 1.5)]
+            for rho in rhos:
+                for seed_kind in (0, 1, 2):
+                    rs_ = [7, np.random.RandomState(7), np.random.default_rng(7)][seed_kind]
+                    got = outcome(lambda: covariance_game(nums, rho, random_state=rs_))
+                    want = "ok" if (N >= 2 and F(-1, N - 1) <= F(rho) <= 1) or (N >= 2 and rho == lo) else "ERR:ValueError"
+                    judge("cov", "C18 args fn=cov N=%d rho=%s" % (N, fx(rho)), got, want,
+                          "covariance_game(%s, rho=%r, seed kind %d)" % (nums, rho, seed_kind),
+                          {"fn": "covariance_game", "nums_actions": nums, "rho": fx(rho), "seed_kind": seed_kind})
+                if F(rho).denominator <= 2 ** 20:
+                    cases.append(Case("C18 args fn=covq N=%d rho=%s" % (N, rats([F(rho)])),
+                                      "ok" if (N >= 2 and F(-1, N - 1) <= F(rho) <= 1) else "ERR:ValueError", tag="args-covq"))
+        # random_game / random_polymatrix_game: empty nums_actions (a one-player polymatrix game is outside the domain)
+        for N in range(0, 4):
+            got = outcome(lambda: random_game((2,) * N, random_state=3))
+            judge("game", "C18 args fn=game N=%d" % N, got, "ok" if N >= 1 else "ERR:ValueError", "random_game(%s)" % ((2,) * N,),
+                  {"fn": "random_game", "N": N})
+            if N != 1:
+                got = outcome(lambda: random_polymatrix_game((2,) * N, random_state=3))
+                judge("polymatrix", "C18 args fn=game N=%d" % N, got, "ok" if N >= 1 else "ERR:ValueError",
+                      "random_polymatrix_game(%s)" % ((2,) * N,), {"fn": "random_polymatrix_game", "N": N})
+        # unit_vector_game: avoid_pure_nash with one action
+        for n in range(1, 5):
+            for avoid in (False, True):
+                got = outcome(lambda: unit_vector_game(n, avoid_pure_nash=avoid, random_state=5))
+                judge("uv", "C18 args fn=uv n=%d avoid=%d" % (n, int(avoid)), got, "ERR:ValueError" if (avoid and n == 1) else "ok",
+                      "unit_vector_game(%d, avoid_pure_nash=%s)" % (n, avoid), {"fn": "unit_vector_game", "n": n, "avoid": avoid})
+        # malformed requests to the model: it must refuse them (never answer with a default)
+        bad = ["C18 args fn=swr n=3", "C18 args fn=cov N=2 rho=1/2", "C18 args fn=uv n=2 avoid=2", "C18 args fn=nothing N=1",
+               "C18 args N=1"]
+        for line, mo in zip(bad, ctx.driver(bad)):
+            ctx.count("args:malformed-request:" + ("refused" if mo == "bad-op" else "ANSWERED"))
+            if mo != "bad-op":
+                ctx.mismatches.append({"request": line, "code": "(malformed request)", "model": mo,
+                                       "why": "the model driver answered a malformed request"})
+
+    args_block()
+
     # ---- the same integer seed in other interpreter processes ---------------------------------------------------------
     # (`./check` fixes PYTHONHASHSEED=0 for this process; a generator whose output depends on the interpreter's hash salt,
     #  on the working directory or on byte-code caching is reproducible here and nowhere else)
